@@ -148,9 +148,23 @@ def evaluate(ck, pidnum, cases, tag):
     concrete, mism = [], []
     for e in errs:
         mism.append(("coqc failed on a generated cases file", None, e[1]))
+    # an unexpected exception (EXC:*, never the ABORT the model predicts for a failed query) on inputs that meet the
+    # theorems' hypotheses is by itself a failing input where the property says so: C05 (no verdict, exit code outside
+    # {0,2,3}) and C07 ("the request never crashes the conductor") -- decided inside Coq on the inputs alone
+    legal = set()
+    want = [c for c in crashed if c["polls"] and (pidnum == 5 or (pidnum == 7 and any(p["cancel"] for p in c["polls"])))]
+    if want:
+        hl = [H.g_case(dict(c, polls=[dict(p, events=[], rows=[], status="RUNNING") for p in c["polls"]])) for c in want]
+        hb, he = common.coq_failing(tag + "_h", HEADER_V, "ecase", "hyp_ok", hl)
+        if not he:
+            legal = {id(c) for k, c in enumerate(want) if k not in hb}
     for c in crashed:
-        mism.append(("implementation raised %s" % c["polls"][-1]["status"] if c["polls"] else c.get("exc"),
-                     strip(c), c.get("exc", "")))
+        what = "implementation raised %s" % c["polls"][-1]["status"] if c["polls"] else c.get("exc")
+        if id(c) in legal:
+            concrete.append(("%s at poll %d on inputs that meet the theorems' hypotheses: %s" % (
+                what, len(c["polls"]), "the study ends with no verdict (exit code outside {0,2,3})" if pidnum == 5
+                else "a cancel request crashed the conductor"), c))
+        mism.append((what, strip(c), c.get("exc", "")))
     if bad:
         sub = [lits[i] for i in bad]
         b_impl, _ = common.coq_failing(tag + "_i", H.HEADER, "ecase", "impl_ok %d" % pidnum, sub)
@@ -183,9 +197,37 @@ def evaluate(ck, pidnum, cases, tag):
     return concrete, mism
 
 
-def run_exec(ck, pidnum, bias, quick_n=500, thorough_n=12000, tiny=None, extra=None):
+def shown_violations(cases):
+    """C02 / C06 speak about what is REPORTED / SHOWN: histories recorded with run_history(shown=True) carry,
+    per poll, the rows of status.csv as the real write_status rendered them.  A shown State / Job ID /
+    Number Restarts that differs from the engine record of the same poll (the record rows are what the
+    correspondence run compares with the model rows the monitors are proved about) is a concrete failing
+    input: [(what, history cut after the first differing poll)]."""
+    out = []
+    for c in cases:
+        for k, p in enumerate(c["polls"]):
+            if "shown" not in p:
+                continue
+            d = H.shown_diff(p["rows"], p["shown"])
+            if d:
+                i, col, got, want = d[0]
+                what = ("status.csv written after poll %d shows %s=%s for step n%d, the engine record says %s "
+                        "(%d differing cells in this poll)" % (k + 1, col, got, i, want, len(d))) if i >= 0 else \
+                       "status.csv could not be written/read after poll %d: %s" % (k + 1, got)
+                out.append((what, dict(c, polls=c["polls"][:k + 1])))
+                break
+    return out
+
+
+def strip_shown(case):
+    """replay file of a shown-row violation: the history plus what status.csv showed after every poll"""
+    return dict(strip(case), shown=[p.get("shown") for p in case["polls"]], shown_check=True)
+
+
+def run_exec(ck, pidnum, bias, quick_n=500, thorough_n=12000, tiny=None, extra=None, shown=False):
     """extra: optional callable(ck) run before the verdict (end-to-end additions of a property)."""
     pid = ck.pid
+    H.SHOWN = bool(shown)       # C02, C06: every history also writes status.csv after every poll and reads it back
     # the tie lemma between the hand-written submit_attempts and the text generated from
     # _StepRecord.execute/restart/_execute/mark_* is an obligation of every execution property
     ck.build_proofs(extra_targets=["theories/Exec/ExecGen2Proofs.vo"])
@@ -227,6 +269,12 @@ def run_exec(ck, pidnum, bias, quick_n=500, thorough_n=12000, tiny=None, extra=N
         ck.violation(what, strip(shrink_prefix(c, pidnum) if k < 2 else c))
     for what, c, detail in mism:
         ck.mismatch(what, c, detail)
+    if shown:
+        sv = shown_violations(cases)
+        for what, c in sv[:3]:
+            ck.violation(what, strip_shown(c))
+        ck.cov["shown_rows_compared"] = sum(1 for c in cases for p in c["polls"] if "shown" in p)
+        ck.notes["shown_row_differences"] = len(sv)
     dist = Counter()
     for c in cases:
         dist["end:" + (c["polls"][-1]["status"] if c["polls"] else "none")] += 1
@@ -278,9 +326,25 @@ def run_exec(ck, pidnum, bias, quick_n=500, thorough_n=12000, tiny=None, extra=N
     return ck.finish(search=search)
 
 
-def replay_exec(ck, pidnum, path):
+def replay_shown(d):
+    """re-run a stored history with status.csv written and read back after every poll; 1 when a shown row differs"""
+    rc = 0
+    for via in (False, True):
+        c = H.run_history(d["nodes"], d["cfg"], random.Random(0), scripted_pins=d["pins"], via_conductor=via, shown=True)
+        for k, p in enumerate(c["polls"]):
+            print("poll %d (%s) records: %s" % (k + 1, "Conductor.monitor_study" if via else "direct", p["rows"]))
+            print("          status.csv: %s" % (p.get("shown"),))
+        for what, _c in shown_violations([c]):
+            print("SHOWN-ROW VIOLATION:", what)
+            rc = 1
+    return rc
+
+
+def replay_exec(ck, pidnum, path, shown=False):
     d = json.load(open(path))
     d = d.get("case", d)
+    if shown and replay_shown(d):
+        return 1
     from harness import exec_real
     if exec_real.is_real(d):
         return exec_real.replay(ck, pidnum, d)
